@@ -131,6 +131,8 @@ func (propC04) Gen(r *Rng, idx int, tier string) *Scenario {
 		sc.Decl.UnknownHandler = "keep"
 	case 2:
 		sc.Decl.UnknownHandler = "fail"
+	case 3:
+		sc.Decl.UnknownHandler = "expand"
 	}
 	sc.Decl.Reenter = hr.Chance(1, 4)
 	sc.World = WorldSpec{Cols: []int{80, 80, 30, 200, -1, 0, 12}[hr.Intn(7)], Now: 1700000000, Env: map[string]BStr{}}
